@@ -1,5 +1,7 @@
 package harness
 
+import "encoding/json"
+
 // Scenario is one schedule: configuration of the instances, store latency policy,
 // timed / event-triggered driver steps and fault rules. Times are virtual microseconds.
 type Scenario struct {
@@ -25,6 +27,8 @@ type Scenario struct {
 	// Script: strict mode. Every store operation and watch delivery is held until a script step releases it;
 	// after the script the scenario continues under the latency policy until EndUs.
 	Script []SStep `json:"script,omitempty"`
+	// Expect: the state the model predicts at the end of the script (compared by the orchestrator; opaque here).
+	Expect json.RawMessage `json:"expect,omitempty"`
 
 	slowMax int64
 }
